@@ -292,6 +292,8 @@ func (jf *JSONFamily) decodePlain(e *FuncEnc, d, raw string, t types.Type, s *Re
 		layout := "2006-01-02T15:04:05.999999999Z07:00"
 		if s != nil && s.Format == "date" {
 			layout = "2006-01-02"
+		} else if l, ok := timeLayoutOf(s); ok {
+			layout = l
 		}
 		ef, vf := e.decFns(types.Typ[types.String])
 		name := mangle("time.Parse")
